@@ -339,6 +339,11 @@ class SeriesOps:
         if name == "pd.to_numeric":
             if isinstance(a0, Ser):
                 self.log("identity-cast", node, what="to_numeric", kw={k: to_term(v) for k, v in kw.items()})
+                dc = kw.get("downcast")
+                if dc == "unsigned":          # values are kept, but later arithmetic is modular: keep a marker on the term
+                    return Ser(("astype", T.C("unsigned"), a0.term), a0.ctx, a0.frame, a0.name, a0.positional)
+                if dc not in (None, "integer", "signed", "float") and not (isinstance(dc, tuple) and dc == T.NONE):
+                    return Ser(("call", "to_numeric", a0.term, ("kw", "downcast", to_term(dc))), a0.ctx, a0.frame, a0.name, a0.positional)
                 return Ser(a0.term, a0.ctx, a0.frame, a0.name, a0.positional)
             return ("call", "to_numeric", to_term(a0))
         if name in ("pd.isna", "pd.isnull"):
